@@ -2616,6 +2616,69 @@ fn write_array_data(
             write_options,
         )?;
         return Ok(offset);
+    } else if let DataType::Union(_, mode) = data_type {
+        // The type id (and dense offset) buffers are not pre-sliced when the
+        // `ArrayData` carries an offset (e.g. the child of a sliced list), so
+        // apply offset and length here.
+        let data_offset = array_data.offset();
+        let type_ids = array_data.buffers()[0].slice_with_length(data_offset, num_rows);
+        offset = encode_sink_buffer(
+            type_ids,
+            meta,
+            sink,
+            offset,
+            compression_codec,
+            ipc_write_context,
+            write_options.alignment,
+        )?;
+        match mode {
+            UnionMode::Dense => {
+                let width = size_of::<i32>();
+                let value_offsets = array_data.buffers()[1]
+                    .slice_with_length(data_offset * width, num_rows * width);
+                offset = encode_sink_buffer(
+                    value_offsets,
+                    meta,
+                    sink,
+                    offset,
+                    compression_codec,
+                    ipc_write_context,
+                    write_options.alignment,
+                )?;
+                // dense offsets index into the unsliced children
+                for data_ref in array_data.child_data() {
+                    offset = write_array_data(
+                        data_ref,
+                        meta,
+                        sink,
+                        offset,
+                        compression_codec,
+                        ipc_write_context,
+                        write_options,
+                    )?;
+                }
+            }
+            UnionMode::Sparse => {
+                // sparse children are positionally aligned with the union
+                for data_ref in array_data.child_data() {
+                    let data_ref = if data_offset != 0 || data_ref.len() != num_rows {
+                        data_ref.slice(data_offset, num_rows)
+                    } else {
+                        data_ref.clone()
+                    };
+                    offset = write_array_data(
+                        &data_ref,
+                        meta,
+                        sink,
+                        offset,
+                        compression_codec,
+                        ipc_write_context,
+                        write_options,
+                    )?;
+                }
+            }
+        }
+        return Ok(offset);
     } else {
         for buffer in array_data.buffers() {
             offset = encode_sink_buffer(
